@@ -176,6 +176,29 @@ func checkStoreVisibility(rep reporter, r *ev.Run, s comet.HybridSearchIndex, p 
 			rep("store.acknowledged-document-invisible", fmt.Sprintf("%s: %d acknowledged, not removed documents are not returned (modalities %v), e.g. %v", when, len(other), mods, head(other, 5)))
 		}
 	}
+	if p.Meta {
+		// an ordering filter on a field that some memtables / segments have never seen
+		res, err := s.NewSearch().WithMetadata(comet.Gte("n", 0)).WithK(bigK).Execute()
+		if err != nil {
+			rep("store.range-filter-fails-on-a-part-without-the-field", when+": Gte(n,0): "+err.Error())
+		} else {
+			got := map[uint32]bool{}
+			for _, x := range res {
+				got[x.ID] = true
+			}
+			for id, d := range m.live {
+				if _, has := d.Meta["n"]; has && want[id] && !got[id] && !m.onlyInCompacted[id] {
+					rep("store.acknowledged-document-invisible", fmt.Sprintf("%s: document %d carries n>=0 but is not returned by Gte(n,0)", when, id))
+					break
+				}
+				if _, has := d.Meta["n"]; !has && got[id] {
+					rep("store.range-filter-returns-document-without-the-field", fmt.Sprintf("%s: document %d has no field n but is returned by Gte(n,0)", when, id))
+					break
+				}
+			}
+			r.Count("probes:range-filter-on-sparse-field", 1)
+		}
+	}
 	r.Count("probes:visibility:"+when, 1)
 }
 
